@@ -9,9 +9,12 @@ THEOREMS = ['MM.Search.' + n for n in ('C04_score_of_design', 'C04_greedy_score'
 TRUSTED_BASE = SEARCH_TRUST + ['aliasing of stored diagnostics objects (deepcopy) and float summation order are runtime behaviour: carried by the oracle and the push-log correspondence, not by a theorem (partial)']
 
 
-def run(out, tier, model_ok=True):
+SUPPORTS_DEEPEN = True
+
+
+def run(out, tier, model_ok=True, deepen=False):
   out.rule = 'oracle: for every returned design at every list position the series held by its diagnostics are compared with the sums of the raw rows of the reported geo IDs over the last n_pretest_max dates, its score tuple / correlation / required impact with values recomputed by fresh diagnostics objects, and no two designs may share a diagnostics object'
-  run_search_prop(out, PROP, se.judge_c04, tier, model_ok)
+  run_search_prop(out, PROP, se.judge_c04, tier, model_ok, deepen=deepen)
 
 
 def replay(out, path, model_ok=True):
